@@ -444,15 +444,15 @@ func (g *c14Gen) atom(depth int) *c14Re {
 	g.budget--
 	x := g.r.Intn(100)
 	switch {
-	case x < 40:
+	case x < 34:
 		return &c14Re{k: 'C', c: c14Chars[g.r.Intn(len(c14Chars))]}
-	case x < 48:
+	case x < 41:
 		return &c14Re{k: '.'}
-	case x < 53:
+	case x < 46:
 		return &c14Re{k: 'D', neg: g.r.Intn(3) == 0}
-	case x < 58:
+	case x < 51:
 		return &c14Re{k: 'W', neg: g.r.Intn(3) == 0}
-	case x < 68:
+	case x < 60:
 		n := 1 + g.r.Intn(3)
 		its := []c14Item{}
 		for i := 0; i < n; i++ {
@@ -464,7 +464,7 @@ func (g *c14Gen) atom(depth int) *c14Re {
 			}
 		}
 		return &c14Re{k: 'K', neg: g.r.Intn(3) == 0, items: its}
-	case x < 76 && (len(g.closedN) > 0 || len(g.closedM) > 0):
+	case x < 80 && (len(g.closedN) > 0 || len(g.closedM) > 0):
 		if len(g.closedM) > 0 && (len(g.closedN) == 0 || g.r.Intn(2) == 0) {
 			return &c14Re{k: 'R', name: g.closedM[g.r.Intn(len(g.closedM))]}
 		}
@@ -494,11 +494,32 @@ func (g *c14Gen) atom(depth int) *c14Re {
 	return &c14Re{k: 'C', c: c14Chars[g.r.Intn(len(c14Chars))]}
 }
 
+func (r *c14Re) hasCapture() bool {
+	switch r.k {
+	case 'G', 'M':
+		return true
+	case 'S', 'A':
+		return r.a.hasCapture() || r.b.hasCapture()
+	case 'N', 'Q':
+		return r.a.hasCapture()
+	}
+	return false
+}
+
+// A count whose maximum is 0 (`{0}`, `{0,0}`) is not put on an atom that contains a capturing
+// group: generateLoop emits no code at all for such a loop, so the group is never declared and a
+// later back-reference to it is a GenError ("identifier '_1' is not defined"), where a
+// conventional engine has a group that never takes part.  Outside the generated domain; noted in
+// the builder's report.
 func (g *c14Gen) quant(a *c14Re) *c14Re {
 	q := &c14Re{k: 'Q', a: a, lazy: g.r.Intn(4) == 0}
+	lowest := 0
+	if a.hasCapture() {
+		lowest = 1
+	}
 	if a.nullable() {
 		// only an exact count may repeat a body that can match the empty string
-		q.qk, q.qm = 'e', g.r.Intn(3)
+		q.qk, q.qm = 'e', lowest+g.r.Intn(3-lowest)
 		return q
 	}
 	switch g.r.Intn(9) {
@@ -509,12 +530,15 @@ func (g *c14Gen) quant(a *c14Re) *c14Re {
 	case 4:
 		q.qk = '?'
 	case 5:
-		q.qk, q.qm = 'e', g.r.Intn(4)
+		q.qk, q.qm = 'e', lowest+g.r.Intn(4-lowest)
 	case 6:
 		q.qk, q.qm = 'l', g.r.Intn(3)
 	default:
 		q.qk, q.qm = 'b', g.r.Intn(3)
 		q.qn = q.qm + g.r.Intn(3)
+		if q.qn < lowest {
+			q.qn = lowest
+		}
 	}
 	return q
 }
@@ -1055,7 +1079,7 @@ func init() {
 			add(fmt.Sprintf("fix%d", i), re, 6, 8)
 		}
 		// 2. random regexes of the subset
-		n := sizes(tier, 2600, 40000)
+		n := sizes(tier, 7000, 60000)
 		for i := 0; i < n; i++ {
 			depth := 1 + r.Intn(3)
 			budget := 2 + r.Intn(sizes(tier, 5, 8))
